@@ -25,6 +25,12 @@
 //!                         the encoder never uses)
 //!   nme   src          -> hex(real name tokenizer stream); model: Names.names_encode; verdict: self round trip
 //!   nmd   stream expect -> hex(decode stream) | Err | Panic; model: Names.names_decode
+//!   HOSTILE STREAMS (same kinds nfd / aad / fqd / nmd, expect = "-"): flag bytes, declared sizes, compressed
+//!                         sizes, symbol / chunk counts, PACK tables, order-1 table headers, fqzcomp parameter bytes and
+//!                         name tokenizer header / token-type bytes of real streams are corrupted (1..3 fields; every
+//!                         output size the decoder would allocate kept <= 2^20, see shared/c08_hostile.rs); the models
+//!                         are the CAPPED decoders NV.Cram.{Nx16Cap,AacCap,FqzCap,NamesCap} (cap 2^22, obs `Capped`
+//!                         above it -- never produced by a generated case)
 //! Implementation-only oracles (obs "-"):
 //!   nx16 flags src | aac flags src | fqz lens src | names src | gz level src | bz2 level src | xz level src
 //!   big codec param shape len seed     (input built inside `run`; > 1 MiB inputs and the witnesses of
@@ -40,6 +46,10 @@ use noodles_cram::verif as v;
 use nv::{Case, CaseWriter, Obs, Outcome, Rng, errkind, guarded, hex};
 use std::io;
 use std::panic::AssertUnwindSafe;
+
+#[path = "../shared/c08_hostile.rs"]
+mod c08_hostile;
+use c08_hostile::{Fam, LIMIT, hostile};
 
 const MASK: u64 = (1 << 62) - 1;
 fn mix(h: u64, x: u64) -> u64 {
@@ -1607,6 +1617,110 @@ fn generate(rng: &mut Rng, tier: &str, w: &mut CaseWriter) {
     } else {
         for (codec, param) in [("r4", 0u64), ("r4", 1), ("nx16", 0x05), ("aac", 1)] {
             w.push("big", vec![codec.into(), param.to_string(), "dominant".into(), rng.range(1_060_000, 1_100_000).to_string(), rng.below(1 << 40).to_string()]);
+        }
+    }
+    // ---- HOSTILE STREAMS (last, so that the cases above do not depend on them): corrupted flag /
+    // size / count / context fields of real streams of all four codec families
+    {
+        let mut hr = rng.fork();
+        let rng = &mut hr;
+        let per = if thorough { 14 } else { 3 };
+        let mut small: Vec<Vec<u8>> = vec![vec![7], vec![1, 2, 3], vec![9; 40], vec![0, 255, 0, 255, 7, 7, 7, 7, 7, 7, 7, 7, 7]];
+        for shape in ["two", "runs", "skewed", "ascii", "qual", "single", "all256"] {
+            for _ in 0..(if thorough { 3 } else { 1 }) {
+                let len = rng.range(5, 400) as usize;
+                small.push(shaped(rng, shape, len));
+            }
+        }
+        // few symbols with runs: PACK and RLE both apply
+        for nsym in [2u64, 4, 9] {
+            let mut v = Vec::new();
+            while v.len() < 120 {
+                let sy = (rng.below(nsym) * 11) as u8;
+                let r = 1 + rng.below(9) as usize;
+                v.extend(std::iter::repeat(sy).take(r));
+            }
+            small.push(v);
+        }
+        let nx_flags: &[u8] = &[0x00, 0x01, 0x04, 0x05, 0x10, 0x20, 0x40, 0x41, 0x80, 0x81, 0xc0, 0xc1, 0xe0, 0xa0, 0x60, 0xd0, 0x08, 0x18, 0x09];
+        for (fi, &f) in nx_flags.iter().enumerate() {
+            for (ii, src) in small.iter().enumerate() {
+                if !thorough && (ii + fi) % 3 != 0 {
+                    continue;
+                }
+                let Outcome::Done(Ok(enc)) = guarded(AssertUnwindSafe(|| v::rans_nx16_encode(rans_nx16::Flags::from(f), src))) else { continue };
+                for _ in 0..per {
+                    let lim = if thorough || rng.below(4) == 0 { LIMIT } else { 1 << 16 };
+                    if let Some((bad, u)) = hostile(rng, Fam::Nx, &enc, src.len() as u64, lim, if thorough { 1 << 14 } else { 1 << 12 }) {
+                        w.push("nfd", vec![f.to_string(), u.to_string(), hex(&bad), "-".into()]);
+                    }
+                }
+            }
+        }
+        // entropy-compressed RLE meta-data and order-1 tables (never written by the encoder): take
+        // them from the corpus-style constructions above by flipping the header bits is not
+        // possible, so corrupt noodles' own decode vectors too
+        for (vec_, n) in [
+            (vec![0x00u8, 0x07, 0x64, 0x65, 0x00, 0x6c, 0x6e, 0x6f, 0x00, 0x73, 0x00, 0x01, 0x01, 0x01, 0x01, 0x03, 0x01, 0x00, 0x26, 0x20, 0x00, 0x00, 0xb8, 0x0a, 0x00, 0x00, 0xd8, 0x0a, 0x00, 0x00, 0x00, 0x04, 0x00], 7usize),
+        ] {
+            for _ in 0..per * 4 {
+                if let Some((bad, u)) = hostile(rng, Fam::Nx, &vec_, n as u64, 1 << 16, 1 << 12) {
+                    w.push("nfd", vec!["0".into(), u.to_string(), hex(&bad), "-".into()]);
+                }
+            }
+        }
+        let aac_flags: &[u8] = &[0x00, 0x01, 0x10, 0x20, 0x40, 0x41, 0x80, 0x81, 0xc0, 0xc1, 0xa0, 0xd1, 0x08, 0x18, 0x49];
+        for (fi, &f) in aac_flags.iter().enumerate() {
+            for (ii, src) in small.iter().enumerate() {
+                if !thorough && (ii + fi) % 3 != 0 {
+                    continue;
+                }
+                let Outcome::Done(Ok(enc)) = guarded(AssertUnwindSafe(|| v::aac_encode(aac::Flags::from(f), src))) else { continue };
+                for _ in 0..per {
+                    let lim = if thorough || rng.below(4) == 0 { LIMIT } else { 1 << 16 };
+                    if let Some((bad, u)) = hostile(rng, Fam::Aac, &enc, src.len() as u64, lim, if thorough { 1 << 17 } else { 1 << 15 }) {
+                        w.push("aad", vec![f.to_string(), u.to_string(), hex(&bad), "-".into()]);
+                    }
+                }
+            }
+        }
+        for it in 0..(if thorough { 60 } else { 14 }) {
+            let shape = *rng.pick(&["qual", "skewed", "two", "runs"]);
+            let (src, lens): (Vec<u8>, Vec<usize>) = if it % 2 == 0 {
+                let rl = rng.range(1, 60) as usize;
+                let n = rng.range(1, 6) as usize;
+                (shaped(rng, shape, rl * n), vec![rl; n])
+            } else {
+                let len = rng.range(1, 300) as usize;
+                let src = shaped(rng, shape, len);
+                let l = gen_partition(rng, src.len());
+                (src, l)
+            };
+            let Outcome::Done(Ok(enc)) = guarded(AssertUnwindSafe(|| v::fqzcomp_encode(&lens, &src))) else { continue };
+            for _ in 0..per * 2 {
+                let lim = if thorough && rng.below(8) == 0 { LIMIT } else { 1 << 14 };
+                if let Some((bad, _)) = hostile(rng, Fam::Fqz, &enc, 0, lim, lim) {
+                    w.push("fqd", vec![hex(&bad), "-".into()]);
+                }
+            }
+        }
+        let mut nsrc: Vec<Vec<u8>> = vec![b"a\0".to_vec(), b"x1\0x1\0x2\0".to_vec(), b"r9\0r10\0r265\0r266\0".to_vec(), b"q:01\0q:02\0q:1\0q:001\0".to_vec()];
+        for _ in 0..(if thorough { 20 } else { 5 }) {
+            nsrc.push(gen_names(rng));
+        }
+        for src in &nsrc {
+            let Outcome::Done(Ok(enc)) = guarded(AssertUnwindSafe(|| v::name_tokenizer_encode(src))) else { continue };
+            for k in 0..per * 3 {
+                // every third stream with the arithmetic coder selected for (rANS-written) sub-streams
+                let mut e = enc.clone();
+                if k % 3 == 2 && e.len() > 8 {
+                    e[8] = 1;
+                }
+                let lim = if thorough || rng.below(4) == 0 { LIMIT } else { 1 << 16 };
+                if let Some((bad, _)) = hostile(rng, Fam::Names, &e, 0, lim, 1 << 12) {
+                    w.push("nmd", vec![hex(&bad), "-".into()]);
+                }
+            }
         }
     }
 }
